@@ -125,7 +125,15 @@ fn c17_prog_subs() -> Vec<Box<dyn Sub>> {
             name: "phantom_erased_builtin",
             quick: 500,
             thorough: 12_000,
-            strat: Box::new(|| builtin_case(false, 1)),
+            strat: Box::new(|| {
+                use proptest::prelude::*;
+                // built-in expressions plus tuples with PhantomData at generated positions
+                let elem = prop_oneof![2 => crate::gen::te(1, false, true, vec![]), 1 => crate::gen::te(0, false, false, vec![]).prop_map(|t| crate::ast::TE::Phantom(Box::new(t)))];
+                (builtin_case(false, 1), proptest::collection::vec(proptest::collection::vec(elem, 1..6).prop_map(crate::ast::TE::Tuple), 0..3)).prop_map(|(mut c, tuples)| {
+                    c.prog.roots.extend(tuples);
+                    c
+                }).boxed()
+            }),
             body: Box::new(phantom_body),
             guard_death: false,
             max_shrink: 96,
